@@ -140,7 +140,10 @@ func (m *Model) arrive(f *Flow, s *Scope, grp *[]*Tok) {
 		m.Requests[n.ID]++
 		m.Pending = append(m.Pending, t)
 	case End:
-		m.Ended = append(m.Ended, n.ID)
+		if s.parent == nil {
+			// end events inside sub-processes are not observable from outside
+			m.Ended = append(m.Ended, n.ID)
+		}
 		m.consume(s)
 	case XOR:
 		var take *Flow
@@ -174,8 +177,19 @@ func (m *Model) arrive(f *Flow, s *Scope, grp *[]*Tok) {
 		inner := &Scope{parent: s, sub: n, g: n.Inner, via: f}
 		t := &Tok{At: n, Via: f, Scope: s}
 		_ = t
-		m.startScope(inner)
-		if inner.live == 0 {
+		hasStart := false
+		for _, x := range n.Inner.Nodes {
+			if x.Kind == Start {
+				hasStart = true
+			}
+		}
+		if hasStart {
+			// keep the activation alive while its start events fire, so that an inner token that is
+			// consumed at once does not complete the scope before all start events have fired
+			inner.live++
+			m.startScope(inner)
+			m.consume(inner)
+		} else {
 			// no start event: nothing runs inside (the engine reports an error); not generated
 			m.Errs = append(m.Errs, "sub-nostart:"+n.ID)
 			m.Stuck++
